@@ -164,8 +164,7 @@ def check(cfg, out, stats):
         # its interface signals (every port signal is left as a free input of the netlist).
         h = maker(cfg)()
         ts = h.translate()
-        driven = [s.name for i, s in enumerate(h.ports)
-                  if len(s) and ts.has(s) and i not in set(ts.input_port_index.values())]
+        driven = [s.name for s in h.ports if id(s) in ts.driven]
         out.extra = {"structural_checks": 1}
         if ts.ffs or ts.mems or driven:
             out.violations.append({
